@@ -78,14 +78,37 @@ def run(ctx):
         es = rwlib.gen_events(rng, rng.randint(6, 14), n_cue_alpha=6, n_out_alpha=rng.choice([7, 13]),
                               max_cues=4, max_outs=4, dups=(k % 2 == 1), file_form=True)
         sets.append({"name": "random-%d" % k, "es": es, "p": rwlib.gen_params(rng), "pol": 2 if k % 2 else 0})
+    # two temporary chunk files of very unequal size: a thread that finishes its part of the long first file
+    # early must not start on the second file before the others are done with the first (barrier per file)
+    big = rwlib.gen_events(rng, 3000, n_cue_alpha=6, n_out_alpha=12, max_cues=3, max_outs=3, dups=False,
+                           outcome_less=False, file_form=True)
+    sets.append({"name": "unequal-files", "es": big, "pol": 0, "events_per_file": 2990, "relational": True,
+                 "p": {"alpha": Fraction(1, 64), "beta1": Fraction(1, 4), "beta2": Fraction(1, 8), "lam": Fraction(2)}})
     cases = []
     for st in sets:
         no, _ = rwlib.label_sets(st["es"])
-        for (m, nj, pj) in configs(len(no.names), ctx.thorough, rng):
+        if st["name"] == "unequal-files":
+            # the first configuration (one thread, one part) is the reference the others are compared with:
+            # exact rational arithmetic over 3000 events is out of reach of the model (denominators of 2^24000)
+            cfgs = [("openmp", 1, 12), ("openmp", 8, 10), ("openmp", 16, 10), ("openmp", 16, 11), ("threading", 8, 10),
+                    ("openmp", 3, 5)]
+        else:
+            cfgs = configs(len(no.names), ctx.thorough, rng)
+        for (m, nj, pj) in cfgs:
             cases.append({"learner": "ndl:" + m, "es": st["es"], "pol": st["pol"], "p": st["p"], "n_jobs": nj,
-                          "n_outcomes_per_job": pj, "set": st["name"]})
-    mres, enc, mo_all = rwlib.model_dict_tables([{"p": s["p"], "pol": s["pol"], "es": s["es"]} for s in sets])
-    mtab = {s["name"]: r for s, r in zip(sets, mres)}
+                          "n_outcomes_per_job": pj, "set": st["name"], "events_per_file": st.get("events_per_file")})
+    # the OpenMP runtime may deliver fewer threads than requested (OMP_THREAD_LIMIT, OMP_DYNAMIC): every part
+    # must still be trained
+    limited = []
+    for st in sets[:3]:
+        no, _ = rwlib.label_sets(st["es"])
+        for (nj, pj) in [(8, 1), (4, 2), (64, 1), (16, 3)]:
+            limited.append({"learner": "ndl:openmp", "es": st["es"], "pol": st["pol"], "p": st["p"], "n_jobs": nj,
+                            "n_outcomes_per_job": pj, "set": st["name"], "omp_thread_limit": 2})
+    msets = [s for s in sets if not s.get("relational")]
+    mres, enc, mo_all = rwlib.model_dict_tables([{"p": s["p"], "pol": s["pol"], "es": s["es"]} for s in msets])
+    mtab = {s["name"]: r for s, r in zip(msets, mres)}
+    reference = {}
 
     jobs = []
     for i, cs in enumerate(cases):
@@ -95,6 +118,13 @@ def run(ctx):
     hashseeds = [(ctx.seed + i) % 4294967295 for i in range(len(jobs))]
     results = sc.run_workers("rw_worker", [{"jobs": [j]} for j in jobs], timeout=DEADLINE, jobs=6,
                              hashseeds=hashseeds, max_timeouts=2)
+    ljobs = [job_of_case(cs) for cs in limited]
+    lres = sc.run_workers("rw_worker", [{"jobs": [j]} for j in ljobs], timeout=DEADLINE, jobs=6, max_timeouts=2,
+                          extra_env={"OMP_THREAD_LIMIT": "2", "OMP_DYNAMIC": "true"})
+    cases += limited
+    jobs += ljobs
+    results += lres
+    hashseeds += [0] * len(limited)
     rep.lap("parallel_runs")
     for cs, j, (status, res), hs in zip(cases, jobs, results, hashseeds):
         if status == "skipped":
@@ -105,6 +135,8 @@ def run(ctx):
         rep.case(d, nontrivial=cs["n_jobs"] > 1)
         rep.hist("method", cs["learner"])
         rep.hist("n_jobs", cs["n_jobs"])
+        rep.hist("omp_thread_limit", cs.get("omp_thread_limit", "none"))
+        rep.hist("chunk_files", 1 if not cs.get("events_per_file") else -(-len(cs["es"]) // cs["events_per_file"]))
         if status == "timeout":
             # confirm in isolation with three times the deadline
             status2, res2 = sc.run_worker("rw_worker", {"jobs": [j]}, hashseed=hs, timeout=3 * DEADLINE)
@@ -119,11 +151,23 @@ def run(ctx):
             rep.violation("parallel learner failed in a legal configuration",
                           {"correspondence": "X-sched", "case": d, "impl": str(res)[:800]})
             break
-        _, mt, no, nc = mtab[cs["set"]]
-        it, err = rwlib.impl_table(res[0]["value"], no, nc)
-        if err:
-            rep.violation(err, {"correspondence": "X-sched", "case": d})
-            break
+        if cs["set"] not in mtab:
+            # relational set: the sequential run of the implementation is the reference
+            no, nc = rwlib.label_sets(cs["es"])
+            it, err = rwlib.impl_table(res[0]["value"], no, nc)
+            if err:
+                rep.violation(err, {"correspondence": "X-sched", "case": d})
+                break
+            if cs["set"] not in reference:
+                reference[cs["set"]] = it
+                continue
+            mt = reference[cs["set"]]
+        else:
+            _, mt, no, nc = mtab[cs["set"]]
+            it, err = rwlib.impl_table(res[0]["value"], no, nc)
+            if err:
+                rep.violation(err, {"correspondence": "X-sched", "case": d})
+                break
         ne, nr, worst = rwlib.compare_tables(mt, it, cs["p"]["lam"])
         rep.bump("cells_exact", ne)
         rep.bump("cells_rounded", nr)
